@@ -26,6 +26,9 @@ pub struct GResp {
     pub chunk_sizes: Vec<usize>,
     pub pieces: Vec<usize>,
     pub pause_us: u64,
+    /// the host takes this long before it answers at all (a long poll, a slow back end)
+    #[serde(default)]
+    pub delay_ms: u32,
     /// the last bytes of the response (e.g. the chunked terminator) are written separately, after a pause
     pub tail_split: u8,
 }
@@ -78,10 +81,11 @@ pub fn gresp() -> impl Strategy<Value = GResp> {
         prop::collection::vec(1usize..3000, 0..4),
         prop::collection::vec(1usize..2000, 0..4),
         prop_oneof![4 => Just(0u64), 1 => 50u64..400],
-        (prop_oneof![3 => Just(0u8), 1 => Just(5u8), 1 => Just(2u8), 1 => 1u8..40], prop::bool::weighted(0.12)),
+        (prop_oneof![3 => Just(0u8), 1 => Just(5u8), 1 => Just(2u8), 1 => 1u8..40], prop::bool::weighted(0.12), prop_oneof![997 => Just(0u32), 3 => prop::sample::select(vec![1500u32, 5500, 7000])]),
     )
-        .prop_map(|(status, hs, body, framing, chunk_sizes, pieces, pause_us, (tail_split, host_closes))| GResp {
+        .prop_map(|(status, hs, body, framing, chunk_sizes, pieces, pause_us, (tail_split, host_closes, delay_ms))| GResp {
             host_closes,
+            delay_ms,
             status,
             headers: {
                 let mut h: Vec<(String, String)> = hs.into_iter().map(|(i, m, v)| (gen::flip_case(RESP_HNAMES[i], m), v)).collect();
@@ -173,6 +177,12 @@ pub fn strategy() -> impl Strategy<Value = Case> {
                     }
                     let small = exchanges.iter().all(|e| e.req.body.len() < 5000 && e.resp.body.len() < 5000 && e.resp.framing != 2);
                     let rounds = if small && !burst { rounds } else { 1 };
+                    if rounds > 1 {
+                        // (a slow host in every round of a keep-alive storm would only cost time)
+                        for e in exchanges.iter_mut() {
+                            e.resp.delay_ms = 0;
+                        }
+                    }
                     ConnPlan { rec, exchanges, burst, rounds }
                 })
                 .collect(),
@@ -191,6 +201,7 @@ pub fn storm_strategy() -> impl Strategy<Value = Case> {
             e.resp.framing = 1;
         }
         e.resp.pause_us = e.resp.pause_us.min(60);
+        e.resp.delay_ms = 0;
         e
     });
     (
@@ -200,7 +211,7 @@ pub fn storm_strategy() -> impl Strategy<Value = Case> {
         .prop_map(|(conns, key)| Case { conns: conns.into_iter().map(|(rec, exchanges, rounds)| ConnPlan { rec, exchanges, burst: false, rounds }).collect(), key })
 }
 
-pub const RULE: &str = "generator: 1-3 client connections run concurrently, each attributed to an authorised caller/destination and carrying 1-4 requests on one keep-alive connection (sequentially, or all written before any response is read, or - with small bodies - the list repeated 8-39 times back to back: a keep-alive storm): method in {GET,POST,PUT,DELETE,PATCH,HEAD,OPTIONS}, target (one in eight written in absolute form, http://<recorded destination><path and query>; 12% of the requests are the two signature-exempt uploads PUT /vmAgentLog and POST /machine/?comp=telemetrydata in any letter case), header multiset (a third of the requests repeat a header name two or three times), body 0 bytes .. exactly the 100 KiB limit (up to 300 KiB on the exempt uploads) as Content-Length or chunked with generated chunk sizes and write boundaries; host responses: status from 200..599 (no 1xx), header multiset incl. repeated Set-Cookie and a host-side x-ms-azure-host-claims (a few percent of the responses: 20-60 more fields of about 1 KB each), body 0..400 KB binary as Content-Length / chunked with generated chunk sizes / close-delimited, written in generated pieces with optional pauses, 12% of the fully framed responses on sequential connections carry 'Connection: close' and the host closes (the client, told so, continues on a new connection), the last bytes (e.g. the chunked terminator) optionally in a separate late write. Every request and response carries a unique tag. oracle: host side - method, target, de-framed body byte-equal, client header lines other than the three proxy-owned names equal as a multiset with order kept among equal names; client side - status, header lines plus exactly one x-ms-azure-host-authorization marker, body byte-equal, response tag = request tag; framing headers, Connection and Date exempt on both legs. non-trivial: an exchange with non-empty bodies in both directions and a multi-frame response, or >= 3 requests on one connection with >= 2 connections active; distinct by hash of the case.";
+pub const RULE: &str = "generator: 1-3 client connections run concurrently, each attributed to an authorised caller/destination and carrying 1-4 requests on one keep-alive connection (sequentially, or all written before any response is read, or - with small bodies - the list repeated 8-39 times back to back: a keep-alive storm): method in {GET,POST,PUT,DELETE,PATCH,HEAD,OPTIONS}, target (one in eight written in absolute form, http://<recorded destination><path and query>; 12% of the requests are the two signature-exempt uploads PUT /vmAgentLog and POST /machine/?comp=telemetrydata in any letter case), header multiset (a third of the requests repeat a header name two or three times), body 0 bytes .. exactly the 100 KiB limit (up to 300 KiB on the exempt uploads) as Content-Length or chunked with generated chunk sizes and write boundaries; host responses: status from 200..599 (no 1xx), header multiset incl. repeated Set-Cookie and a host-side x-ms-azure-host-claims (a few percent of the responses: 20-60 more fields of about 1 KB each), body 0..400 KB binary as Content-Length / chunked with generated chunk sizes / close-delimited, written in generated pieces with optional pauses, 0.3% of the responses only after 1.5 / 5.5 / 7 s, 12% of the fully framed responses on sequential connections carry 'Connection: close' and the host closes (the client, told so, continues on a new connection), the last bytes (e.g. the chunked terminator) optionally in a separate late write. Every request and response carries a unique tag. oracle: host side - method, target, de-framed body byte-equal, client header lines other than the three proxy-owned names equal as a multiset with order kept among equal names; client side - status, header lines plus exactly one x-ms-azure-host-authorization marker, body byte-equal, response tag = request tag; framing headers, Connection and Date exempt on both legs. non-trivial: an exchange with non-empty bodies in both directions and a multi-frame response, or >= 3 requests on one connection with >= 2 connections active; distinct by hash of the case.";
 
 const EXEMPT: &[&str] = &["content-length", "transfer-encoding", "connection", "keep-alive", "date", "te", "trailer", "upgrade"];
 const PROXY_OWNED: &[&str] = &["x-ms-azure-host-claims", "x-ms-azure-host-date", "x-ms-azure-host-authorization"];
@@ -254,7 +265,7 @@ pub fn eval(rig: &Rig, case: &Case, stats: &mut Stats) -> Outcome {
                 pieces: e.resp.pieces.clone(),
                 pause_us: e.resp.pause_us,
                 reset: false,
-                delay_ms: 0,
+                delay_ms: e.resp.delay_ms as u64,
                 tail_split: e.resp.tail_split as usize,
             };
             specs.lock().unwrap().insert(tag.clone(), spec);
@@ -357,6 +368,9 @@ pub fn eval(rig: &Rig, case: &Case, stats: &mut Stats) -> Outcome {
             stats.class(if e.req.chunked.is_some() && !e.req.body.is_empty() { "req-framing:chunked" } else { "req-framing:content-length" });
             if e.abs_form {
                 stats.class("request:absolute-form-target");
+            }
+            if e.resp.delay_ms >= 5000 && c.rounds <= 1 {
+                stats.class("response:host-answers-after->=5s");
             }
             if e.req.body.len() == 102_400 {
                 stats.class("req-body:exactly-the-limit");
